@@ -2,7 +2,7 @@
 // `base` is the address of the first byte of the caller's input view and
 // `boff` the absolute offset of that view inside its allocation, so every
 // opaque leaf prints the absolute offset of its bytes in the input allocation.
-use super::xdr::*;
+use super::xdr::Error;
 use fastxdr::bytes::Bytes;
 use std::fmt::Write;
 
